@@ -48,6 +48,7 @@ from runtime import c05_superset as M5
 from runtime.harness import Case, tmpdir, import_fastparquet
 
 G_ROWS, G_MASK, G_NULL, G_PLUMB = "c13.rows", "c13.mask", "c13.null_semantics", "c13.mask_plumbing"
+G_RG = "c13.rowgroup_read"
 
 DATASETS = ["flat1", "flat3", "flat4v2", "flat2v2", "hive0", "hive_pi", "hive_ps_pb", "hive_pt", "drill_pi_ps",
             "idx_dt", "one_row"] + list(D.PAGES)
@@ -61,6 +62,10 @@ CONTRACT_ROWS = ("to_pandas(filters=F, row_filter=True, columns=C) has exactly t
                  "conditions honoured; null never satisfies a positive comparison), in original order, every column "
                  "aligned with the full read; count(filters=F, row_filter=True) equals its length")
 CONTRACT_MASK = "to_pandas(row_filter=mask, columns=C) == full read restricted to the masked rows; wrong length raises"
+CONTRACT_RG = ("stand-alone per-row-group read (documented mode row_filter=[list of filters], assign=None): "
+               "read_row_group_file(rg_i, C, None, index=False, row_filter=F) == pf[i].to_pandas(filters=F, row_filter=True, "
+               "columns=C, index=False) for every row group i kept by filter_row_groups; with row_filter=False it equals "
+               "pf[i].to_pandas(columns=C, index=False)")
 
 
 # ---------------------------------------------------------------------------------------------
@@ -537,6 +542,93 @@ def run_rows(args):
     return res
 
 
+def _snippet_rg(dsname, F, cols, j):
+    body = '''
+import pandas as pd
+from pandas import Timestamp
+from numpy import nan
+F = %r
+COLS = %r
+J = %r
+rg = pf.row_groups[J]
+exp = pf[J].to_pandas(filters=F, row_filter=True, columns=COLS, index=False) if F else pf[J].to_pandas(columns=COLS, index=False)
+got = pf.read_row_group_file(rg, COLS, None, index=False, row_filter=F)
+print("row group", J, "rows:", rg.num_rows, "stand-alone read:", len(got), "rows; to_pandas on that row group:", len(exp), "rows")
+VIOLATED = len(got) != len(exp)
+if not VIOLATED:
+    for c in COLS:
+        a, b = got[c].astype(object).where(got[c].notna(), None).tolist(), exp[c].astype(object).where(exp[c].notna(), None).tolist()
+        if a != b:
+            print("column", c, ":", a[:8], "expected", b[:8]); VIOLATED = True
+''' % (F, cols, j)
+    return D.make_snippet(dsname, body)
+
+
+def run_rowgroups(args):
+    """c13.rowgroup_read: the stand-alone branch of read_row_group_file against to_pandas on the one-row-group view.  Both go
+    through _column_filter / the same mask plumbing, so the known regions of c13.rows cancel out; row groups dropped by
+    filter_row_groups (to_pandas would not read them at all) and datasets with v2 pages (known-broken mask plumbing whose
+    symptom can be uninitialised memory) are not enumerated; a case where to_pandas itself raises is c13.rows' subject."""
+    root, name, tier, sel, seed = args
+    fp = import_fastparquet()
+    fpapi = __import__("fastparquet.api").api
+    view = make_view(fp, root, name)
+    if any(v[0] == 2 for v in view.layout.values()):
+        return []
+    cols = M5._filter_columns(view)
+    if view.ds.foreign:
+        cols = cols[:4]
+    elif tier == "quick" and (QUICK_COLS.get(name) or M5.QUICK_COLS.get(name)):
+        cols = [c for c in (QUICK_COLS.get(name) or M5.QUICK_COLS[name]) if c in cols]
+    data_cols = [c for c in view.outcols if c not in view.partcols]
+    pf = view.pf
+    res = []
+
+    def compare(F, ocols, j, feats):
+        try:
+            exp = pf[j].to_pandas(filters=F, row_filter=True, columns=ocols, index=False) if F else pf[j].to_pandas(columns=ocols, index=False)
+        except Exception:
+            return
+        try:
+            got = pf.read_row_group_file(pf.row_groups[j], ocols, None, index=False, row_filter=F)
+            what = None
+            if len(got) != len(exp):
+                what = "stand-alone read of row group %d (%d rows) returns %d rows, to_pandas(filters=F, row_filter=True) on that row group %d" % (
+                    j, pf.row_groups[j].num_rows, len(got), len(exp))
+            else:
+                d = D.explain_diff(got, exp, index_values=True)
+                what = ("stand-alone read of row group %d differs from to_pandas on that row group: " % j + d) if d else None
+            n, m = pf.row_groups[j].num_rows, len(exp)
+            feats = dict(feats, selected="none" if m == 0 else "all" if m == n else "some")
+        except Exception as e:
+            what = "%s: %s" % (type(e).__name__, str(e)[:200])
+            feats = dict(feats, selected="?")
+        res.append((G_RG, feats, what is None, what, len(view.full) > 0, ("rg", view.ds.name, F, ocols, j)))
+    for j in range(len(pf.row_groups)):
+        for ocols, vname in ((data_cols[:4], "first4"), (data_cols[-2:], "last2")):
+            compare(False, ocols, j, {"ds": view.ds.name, "shape": "unfiltered", "cols": vname, "written": "-"})
+    progs = M5.programs(view, cols, tier)[::(12 if tier == "quick" else 3)]
+    for k, (shape, F, ft) in enumerate(progs):
+        if any(a[0] in view.full.columns and isinstance(view.full[a[0]].dtype, pd.CategoricalDtype)
+               and a[0] not in view.partcols and a[1] in ORDER_OPS for g in D.normalise(F) for a in g):
+            continue
+        try:
+            idx = sorted(set(int(i) for i in fpapi.filter_row_groups(pf, F, as_idx=True)))
+        except Exception:
+            continue
+        fcols = [c for c in dict.fromkeys(a[0] for g in D.normalise(F) for a in g) if c in data_cols]
+        key = [view.key] if view.key else data_cols[:1]
+        others = [c for c in data_cols if c not in fcols and c not in key]
+        ocols, vname = [(key + fcols, "key+filter"), (key + others[k % max(1, len(others)):][:2], "key+others"), (fcols or key, "filter_only")][k % 3]
+        ocols = list(dict.fromkeys(ocols))
+        written, Fw = ("lists", as_lists(F)) if k % 2 else ("tuples", F)
+        for j in idx:
+            feats = {"ds": view.ds.name, "shape": shape, "cols": vname, "written": written}
+            feats.update(ft)
+            compare(Fw, ocols, j, feats)
+    return res
+
+
 def run_masks(args):
     root, name, tier, sel, seed = args
     fp = import_fastparquet()
@@ -707,6 +799,12 @@ def run_bounded(ctx):
         "of every page, even/odd pages only, not page 0, last page only, page firsts except page 1, page 1 whole + "
         "firsts} x column sets {all, key, pairs of columns, partition+data}; masks over the row groups "
         "selected by a filter; 4 wrong lengths (must raise ValueError). Cases in bad_plumbing are not enumerated."))
+    ctx.bounded_group(G_RG, rule=(
+        "same datasets without v2 pages x every row group: unfiltered stand-alone read (2 column sets); every %s filter program "
+        "(conditions written alternately as tuples / lists) x every row group kept by filter_row_groups x column sets cycling "
+        "through {key + filter columns, key + 2 others, filter columns only}; reference = to_pandas on the one-row-group view "
+        "pf[i] (cases where that raises are not enumerated). distinct = (dataset, shape, columns, operators, constant classes, "
+        "column variant, written form, none/some/all rows selected)." % ("12th" if ctx.tier == "quick" else "3rd")))
     ctx.bounded_group(G_NULL, rule="%d fixed (dataset, negative-operator atom on a column with nulls) cases, strict reading" % len(NULL_CASES))
     ctx.bounded_group(G_PLUMB, rule="%d fixed canonical (dataset, column, mask) cases, one or more per broken mask-plumbing family" % len(PLUMB_CASES))
     with tmpdir("verif-c13-") as root:
@@ -722,6 +820,8 @@ def run_bounded(ctx):
                 tasks.append((run_rows, (root, "foreign:" + f, ctx.tier, (k, split), ctx.seed)))
         for n in DATASETS + ["foreign:" + f for f in FOREIGN]:
             tasks.append((run_masks, (root, n, ctx.tier, None, ctx.seed)))
+        for n in DATASETS + ["foreign:" + f for f in FOREIGN]:
+            tasks.append((run_rowgroups, (root, n, ctx.tier, None, ctx.seed)))
         tasks.append((run_special, (root, ctx.tier, ctx.seed)))
         from runtime.harness import robust_map, WorkerDied
         results = robust_map(_call_task, tasks, min(16, os.cpu_count() or 4))
@@ -729,12 +829,13 @@ def run_bounded(ctx):
             if isinstance(r, WorkerDied):      # the real library killed the process: a failing case, not a checker crash
                 results[k] = [(G_ROWS, {"ds": str(tasks[k][1][1]), "kind": "process died", "task": tasks[k][0].__name__}, False, r.what(), True, None)]
     contracts = {G_ROWS: CONTRACT_ROWS, G_MASK: CONTRACT_MASK, G_NULL: CONTRACT_ROWS + " [strict: null never satisfies != / not in]",
-                 G_PLUMB: CONTRACT_MASK}
+                 G_PLUMB: CONTRACT_MASK, G_RG: CONTRACT_RG}
     for res in results:
         for group, feats, ok, what, nontrivial, rp in res:
             snip = None
             if not ok and rp is not None:
-                snip = _snippet_rows(rp[1], rp[2], rp[3], rp[4]) if rp[0] == "rows" else _snippet_mask(rp[1], rp[2], rp[3], rp[4], rp[5])
+                snip = _snippet_rows(rp[1], rp[2], rp[3], rp[4]) if rp[0] == "rows" else _snippet_rg(rp[1], rp[2], rp[3], rp[4]) if rp[0] == "rg" \
+                    else _snippet_mask(rp[1], rp[2], rp[3], rp[4], rp[5])
             with Case(ctx, group, feats, snippet=snip, nontrivial=nontrivial, contract=contracts[group]) as c:
                 if not ok:
                     c.fail(what)
